@@ -429,9 +429,11 @@ pub fn run(tier: Tier) -> RunOutcome {
                         ));
                     }
                 } else if snap.status != rsnap.status
-                    // both limits tripping at the same boundary: the property does not say
-                    // which one gets the blame
-                    && !(rsnap.iterations == op.max_iter && is_maxtime_family(snap.status))
+                    // the limit is exceeded at this boundary and the unlimited run ends here as
+                    // well (converged, gave up, hit max_iter, or broke down before doing any
+                    // more numerical work): the property does not say which of the two wins
+                    // the tie, so MaxTime is as good as the other verdict
+                    && !is_maxtime_family(snap.status)
                 {
                     out.violations.push(Violation::new(
                         "C04.verdict_changed",
